@@ -54,6 +54,7 @@ def forkrun(fn, *args, timeout: float = 120.0, **kwargs):
             os.close(rfd)
             faulthandler.enable()
             faulthandler.dump_traceback_later(max(timeout - 2.0, 1.0), exit=True)
+            sys.stderr = open(os.devnull, "w")  # ANTLR console listener chatter; faulthandler writes to fd 2 itself
             gc.disable()
             try:
                 res = ("ok", fn(*args, **kwargs))
